@@ -171,6 +171,35 @@ def bounded(b):
                             if d["midi_pitch"] != o["midi_pitch"]:
                                 good, what = False, "pitch"
                     b.case("codec/decode_of_encode_reproduces_onsets_durations_velocities", good, case, what)
+            # the same round trip when the grace notes are played and matched: the ordinary notes still come back as performed
+            na0 = part.note_array()
+            grace_ids = {str(r["id"]) for r in na0 if float(r["duration_beat"]) == 0}
+            if grace_ids:
+                ppg, alg = _performance(part, b.seed * 100 + seed, extra=True, match_grace=True)
+                for norm in norms:
+                    for method in ("average", "derivative"):
+                        case = {"score": sname, "seed": seed, "normalization": norm, "tempo_smooth": method, "grace_notes_matched": True}
+                        ok, enc = b.guard("codec/encode_no_exception", case, lambda: pc.encode_performance(part, ppg, alg, beat_normalization=norm, tempo_smooth=method))
+                        if not ok:
+                            continue
+                        params, snote_ids = enc[0], enc[1]
+                        ok, dec = b.guard("codec/decode_no_exception", case, lambda: pc.decode_performance(part, params, snote_ids=snote_ids, beat_normalization=norm))
+                        if not ok:
+                            continue
+                        sid_to_pid = {a["score_id"]: a["performance_id"] for a in alg if a["label"] == "match" and a["score_id"] != "not_in_score"}
+                        orig = {n["id"]: n for n in ppg.notes}
+                        dn = list(dec.notes)
+                        good, what = len(dn) == len(snote_ids), "%d decoded notes for %d encoded notes" % (len(dn), len(snote_ids))
+                        if good:
+                            for sid, d in zip(snote_ids, dn):
+                                if sid in grace_ids or sid not in sid_to_pid:
+                                    continue
+                                o = orig[sid_to_pid[sid]]
+                                if abs((d["note_off"] - d["note_on"]) - (o["note_off"] - o["note_on"])) > 2e-3:
+                                    good, what = False, "note %s: duration %.4f decoded as %.4f" % (sid, o["note_off"] - o["note_on"], d["note_off"] - d["note_on"])
+                                if abs(d["velocity"] - o["velocity"]) > 1 or d["midi_pitch"] != o["midi_pitch"]:
+                                    good, what = False, "note %s: velocity/pitch" % sid
+                        b.case("codec/decode_of_encode_reproduces_onsets_durations_velocities", good, case, what)
             # matched note table and time maps
             case = {"score": sname, "seed": seed}
             ok, ms = b.guard("codec/matched_score_no_exception", case, lambda: pc.to_matched_score(part, ppart, al))
